@@ -44,7 +44,7 @@ func init() {
 		Run:             runC20,
 		Floors: func(tier string) map[string]int {
 			m := map[string]int{"requests": 2500, "invalid_requests_digest_checked": 1200, "health_probes": 100, "proto_h1": 500, "proto_h2c": 500,
-				"role_primary": 10, "role_replica": 10, "role_noprimary": 10, "final_commit_ok": 10, "holder_hostile_tx": 90}
+				"role_primary": 10, "role_replica": 10, "role_noprimary": 10, "final_commit_ok": 10, "holder_hostile_tx": 90, "refused_streams_left_no_subscriber": 20}
 			for _, e := range c20Endpoints {
 				m["ep_"+strings.TrimPrefix(e, "/")] = 60
 			}
@@ -499,6 +499,13 @@ func runC20(c *core.Case) {
 		if len(recent) > 12 {
 			recent = recent[1:]
 		}
+		// is the node id of the request registered as a connected replica already?
+		var reqNode uint64
+		subBefore := false
+		if id, perr := litefs.ParseNodeID(r.NodeID); perr == nil && id != 0 {
+			reqNode = id
+			subBefore = target.Store.SubscriberByNodeID(id) != nil
+		}
 		status, terr := send(r)
 		if status == -1 {
 			continue
@@ -550,6 +557,20 @@ func runC20(c *core.Case) {
 				after = stateDigest(target)
 			}
 			c.Count("invalid_requests_digest_checked", 1)
+			if reqNode != 0 && !subBefore && r.Path == "/stream" {
+				// a refused stream request leaves no replica registered under its id
+				// (handoff and promotion look targets up there)
+				still := target.Store.SubscriberByNodeID(reqNode) != nil
+				for k := 0; k < 100 && still; k++ {
+					time.Sleep(2 * time.Millisecond)
+					still = target.Store.SubscriberByNodeID(reqNode) != nil
+				}
+				if still {
+					c.Violate("C20/invalid-request-changed-state/"+r.Method+" "+r.Path+"/subscriber", fmt.Sprintf("%s node: %s (invalid: %s) was answered %d and left node %s registered as a connected replica", role, r.String(), r.Invalid, status, r.NodeID), map[string]any{"role": role, "request": r.String(), "invalid_because": r.Invalid})
+					return
+				}
+				c.Count("refused_streams_left_no_subscriber", 1)
+			}
 			if after != before {
 				c.Violate("C20/invalid-request-changed-state/"+r.Method+" "+r.Path, fmt.Sprintf("%s node: %s (invalid: %s) was answered %d and changed databases/positions/logs/locks", role, r.String(), r.Invalid, status), map[string]any{"role": role, "request": r.String(), "invalid_because": r.Invalid, "digest_before": before, "digest_after": after})
 				return
